@@ -16,7 +16,8 @@ RULE = ("command lists of 1-7 entries, each naming any subset of *earlier* entri
         "option set or the ArgParser itself in generated order; every (command, flag) pair is parsed (exhaustive per "
         "configuration) plus default-command vectors (empty, option first, and - with an optional '*' positional on every command - "
         "a first word that is no command name: '-', '--', 'h', 'help', '', ...) and the standard -v / --color / --no-color options. Non-trivial = "
-        "graph has a node with >=2 parents or a chain of depth >=3; distinct by (graph, assignment).")
+        "graph has a node with >=2 parents or a chain of depth >=3; distinct by (graph, assignment)."
+        " Also: a second switch of the same parser writing to a destination in use (--no-X with X's dest, dest='verbose'); the vector given as list / tuple / through sys.argv; the caller's list must come back unchanged.")
 ASSUMPTIONS = [
     "each flag is added to exactly one parser (adding one flag twice along a path is an argparse conflict by design)",
     "internal '!' names are not used as commands on the command line",
